@@ -163,6 +163,8 @@ impl Scenario for C05 {
         v.push(Act::SetTrusted);
         if m.advances < 1 {
             v.push(Act::Advance(20));
+            // ~64 days: longer than any TTL a contract extends to, shorter than the minimum persistent TTL
+            v.push(Act::Advance(1_100_000));
         }
         v
     }
